@@ -553,14 +553,15 @@ def memOnly (a : Agent) (graceful : Bool) : List Nat :=
   ((a.hist.filter (fun c => c.id == 0)).map (·.sec)) ++
   ((a.flights.filter (fun f => f.cbd.id == 0 && (f.historic || !graceful || !a.disk || !a.diskOk))).map (·.cbd.sec))
 
+/-- the process image after exec: nothing in memory, disk records not yet read, configuration defaults -/
+def restarted (a : Agent) (lost : List Nat) : Agent :=
+  { a with hist := [], flights := [], recs := resetIds a.recs, lastId := 0, memSize := 0, ballast := 0, diskOk := true,
+           live := a.live.map (fun _ => { alive := true, last := [] }), lostMem := a.lostMem ++ lost }
+
 def stepAgentRestart (s : State) (crash : Bool) : State × List Ev :=
-  let lost := memOnly s.ag (!crash)
-  let a := if crash then s.ag else flushFlights s.ag.flights s.ag
-  let rids := s.ag.flights.map (·.rid)
-  let a' : Agent := { a with hist := [], flights := [], recs := resetIds a.recs, lastId := 0, memSize := 0, ballast := 0, diskOk := true,
-                             live := a.live.map (fun _ => { alive := true, last := [] }), lostMem := a.lostMem ++ lost }
-  ({ s with ag := readN startupReads a', aggs := s.aggs.map (fun g => rids.foldl unpark g),
-            resps := s.resps.filter (fun x => !rids.contains x.rid) }, [])
+  ({ s with ag := readN startupReads (restarted (if crash then s.ag else flushFlights s.ag.flights s.ag) (memOnly s.ag (!crash))),
+            aggs := s.aggs.map (fun g => (s.ag.flights.map (·.rid)).foldl unpark g),
+            resps := s.resps.filter (fun x => !(s.ag.flights.map (·.rid)).contains x.rid) }, [])
 
 def stepBad (s : State) (r : Nat) : State × List Ev :=
   match s.aggs[r]? with
